@@ -171,10 +171,13 @@ func (r *ruler) windowRule() {
 			return nil, false
 		}
 		// the loop over the window is evaluated at one symbolic position
-		loops := &absint.LoopSym{Fn: fn, Facts: base}
+		inVM := func(f *ssa.Function) bool {
+			return f != nil && f.Pkg != nil && f.Pkg.Pkg.Path() == load.ModPath+"/vm"
+		}
+		loops := &absint.LoopSym{Fn: fn, In: inVM, Facts: base}
 		in.Hooks.Instr = loops.OnInstr
 		in.Hooks.Branch = func(in *absint.Interp, cond absint.Val, site ssa.Instruction) (bool, bool) {
-			if site != nil && site.Block() != nil && strings.HasPrefix(site.Block().Comment, "rangeindex") && site.Parent() != fn {
+			if site != nil && site.Block() != nil && strings.HasPrefix(site.Block().Comment, "rangeindex") && !inVM(site.Parent()) {
 				return false, true
 			}
 			return loops.OnBranch(in, cond, site)
@@ -189,6 +192,24 @@ func (r *ruler) windowRule() {
 			}
 			if callee.Name() == "Abbrev" || callee.Name() == "Display" || callee.Name() == "String" && pkg == load.ModPath+"/types/value" {
 				return absint.NewVar("OPERANDS", types.Typ[types.String]), true
+			}
+			// a rendering of an instruction (its String method, a formatter) still
+			// stands for that instruction
+			if pkg != "fmt" && callee.Signature.Results().Len() == 1 {
+				for _, a := range args {
+					if cs, ok := a.(*absint.Sym); ok && cs.Op == "code" {
+						return &absint.Sym{Op: "code", Args: cs.Args, T: callee.Signature.Results().At(0).Type()}, true
+					}
+				}
+			}
+			// whatever is computed from the rendered operands (Join, Sprintf, a
+			// builder) still is "the operand values"
+			if pkg != "fmt" || !strings.HasPrefix(callee.Name(), "Print") {
+				for _, a := range args {
+					if mentionsOperands(a) && callee.Signature.Results().Len() == 1 {
+						return absint.NewVar("OPERANDS."+callee.Name(), callee.Signature.Results().At(0).Type()), true
+					}
+				}
 			}
 			if pkg == "fmt" && len(args) >= 1 {
 				var vals []absint.Val
@@ -207,18 +228,15 @@ func (r *ruler) windowRule() {
 				var nums []absint.Val
 				operands := false
 				for _, v := range vals {
-					k := absint.Key(v)
-					if s, ok := v.(*absint.Sym); ok && s.Op == "code" {
-						instr = s.Args[0]
+					if c := findCode(v); c != nil {
+						instr = c
 						continue
 					}
-					if strings.Contains(k, "OPERANDS") {
+					if mentionsOperands(v) {
 						operands = true
 						continue
 					}
-					if _, ok := absint.LinOf(v); ok {
-						nums = append(nums, v)
-					}
+					nums = append(nums, findInts(v)...)
 				}
 				if instr != nil {
 					printed = true
@@ -264,7 +282,8 @@ func (r *ruler) windowRule() {
 			case 0:
 				return nil, true
 			case 1:
-				return absint.NewVar(callee.Name()+"()", callee.Signature.Results().At(0).Type()), true
+				// opaque, but what it was computed from stays visible
+				return &absint.Sym{Op: callee.Name(), Args: args, T: callee.Signature.Results().At(0).Type()}, true
 			}
 			t := &absint.Tuple{}
 			for i := 0; i < callee.Signature.Results().Len(); i++ {
@@ -373,4 +392,67 @@ func shownIP(in *absint.Interp, loops *absint.LoopSym, base *absint.LinFacts, y,
 		return ok
 	}
 	return false
+}
+
+func mentionsOperands(v absint.Val) bool {
+	if v == nil {
+		return false
+	}
+	if sl, ok := v.(*absint.Slice); ok {
+		for _, e := range sl.Elems() {
+			if mentionsOperands(e) {
+				return true
+			}
+		}
+		return false
+	}
+	if ifc, ok := v.(*absint.Iface); ok {
+		return mentionsOperands(ifc.V)
+	}
+	return strings.Contains(absint.Key(v), "OPERANDS")
+}
+
+// findCode: the instruction (by its absolute index) that v renders, if any.
+func findCode(v absint.Val) absint.Val {
+	switch x := v.(type) {
+	case *absint.Sym:
+		if x.Op == "code" && len(x.Args) == 1 {
+			return x.Args[0]
+		}
+		for _, a := range x.Args {
+			if c := findCode(a); c != nil {
+				return c
+			}
+		}
+	case *absint.Iface:
+		return findCode(x.V)
+	case *absint.Slice:
+		for _, e := range x.Elems() {
+			if c := findCode(e); c != nil {
+				return c
+			}
+		}
+	}
+	return nil
+}
+
+// findInts: the integer quantities that go into v (v itself, or the arguments
+// of the conversions and concatenations it is built from).
+func findInts(v absint.Val) []absint.Val {
+	if _, ok := absint.LinOf(v); ok {
+		if _, isConst := absint.ConstInt(v); !isConst {
+			return []absint.Val{v}
+		}
+		return nil
+	}
+	var out []absint.Val
+	switch x := v.(type) {
+	case *absint.Sym:
+		for _, a := range x.Args {
+			out = append(out, findInts(a)...)
+		}
+	case *absint.Iface:
+		return findInts(x.V)
+	}
+	return out
 }
